@@ -26,6 +26,10 @@ import struct
 from pv import lib_kexeng as L
 from pv.core import exc_site, hx
 
+# the peer's identification string is attacker-chosen: the verdict must not depend on it
+BANNERS = ["SSH-2.0-paramiko_3.4.0", "SSH-2.0-OpenSSH_6.6.1p1 Ubuntu-2ubuntu2", "SSH-2.0-OpenSSH_7.2", "SSH-2.0-OpenSSH_7.4p1 Debian-10",
+           "SSH-2.0-OpenSSH_7.7", "SSH-2.0-OpenSSH_7.8", "SSH-2.0-OpenSSH_8.9p1 Ubuntu-3", "SSH-2.0-PuTTY_Release_0.76",
+           "SSH-2.0-dropbear_2020.81", "SSH-1.99-OpenSSH_7.3", "SSH-2.0-libssh_0.9.6", ""]
 SUFFIX = "-cert-v01@openssh.com"
 RSA_NAMES = ["ssh-rsa", "rsa-sha2-256", "rsa-sha2-512"]
 HASH_ID = {"ssh-rsa": 1, "rsa-sha2-256": 2, "rsa-sha2-512": 4}
@@ -253,6 +257,20 @@ def source_facts(ctx):
     missing = {"_generate_key_from_request", "_check_sig_algorithm", "verify_ssh_sig"} - calls(tree)
     if missing:
         ctx.disagree("publickey-branch-does-not-call", {"missing": sorted(missing)}, "calls all", "missing %r" % sorted(missing))
+    # the comparison in the publickey branch is unconditional: its call statement sits directly in a `try:` body
+    # (under no test), and the function never looks at the peer's or our own identification string
+    parents = {}
+    for node in ast.walk(tree):
+        for ch in ast.iter_child_nodes(node):
+            parents[ch] = node
+    call_stmts = [n for n in ast.walk(tree) if isinstance(n, ast.Expr) and isinstance(n.value, ast.Call)
+                  and isinstance(n.value.func, ast.Attribute) and n.value.func.attr == "_check_sig_algorithm"]
+    if len(call_stmts) != 1 or not isinstance(parents.get(call_stmts[0]), ast.Try) or call_stmts[0] not in parents[call_stmts[0]].body:
+        ctx.disagree("publickey-branch-check-is-conditional", {}, "one _check_sig_algorithm call statement directly in a try body",
+                     "%d call statement(s); parent %s" % (len(call_stmts), type(parents.get(call_stmts[0])).__name__ if call_stmts else None))
+    versions = sorted({n.attr for n in ast.walk(tree) if isinstance(n, ast.Attribute) and n.attr in ("remote_version", "local_version")})
+    if versions:
+        ctx.disagree("publickey-branch-reads-identification-string", {}, "no use of remote_version/local_version", versions)
     ctx.dist("source-facts-checked")
 
 
@@ -449,6 +467,7 @@ def server_path(ctx, K):
                 t.server_object = Srv()
                 Srv.ok = cb
                 t.session_id = sid
+                t.remote_version = BANNERS[len(reqs) % len(BANNERS)]
                 sent = []
                 t._send_message = lambda m, sent=sent: sent.append(m.asbytes()[0])
                 ah = AuthHandler(t)
@@ -490,7 +509,7 @@ def server_path(ctx, K):
                 reqs.append("auth %s %s %s %s %s %d %s" % (names_tok(dis), hx(decl.encode()), parse, hx(ident), flags,
                                                           1 if cb else 0, "none" if sig is None else hx(sig)))
                 cases.append(({"disabled": dis, "declared": decl, "signature": label}, impl))
-                ctx.case(("auth", tuple(dis), decl, name, flags, cb, keyblob[:40]), name is not None and name != base_name(decl).encode())
+                ctx.case(("auth", tuple(dis), decl, name, flags, cb, keyblob[:40], t.remote_version), name is not None and name != base_name(decl).encode())
                 ctx.dist("auth:%s:%s" % (fam, impl.split(":")[0]))
     finally:
         a.close()
@@ -500,6 +519,69 @@ def server_path(ctx, K):
         for (case, impl), m, r in zip(cases, model, reqs):
             if m != impl:
                 ctx.disagree("server-publickey-auth", dict(case, request=r[:300]), m, impl)
+
+
+def server_banner_matrix(ctx, K):
+    """every client identification string x declared RSA algorithm x algorithm named (and used) by the signature x
+    {nothing disabled, ssh-rsa disabled}: the real publickey branch, verdict independent of the banner."""
+    import paramiko
+    from paramiko.auth_handler import AuthHandler
+    from paramiko.common import AUTH_SUCCESSFUL
+    from paramiko.message import Message
+    from paramiko.transport import Transport
+
+    class Srv(paramiko.ServerInterface):
+        def check_auth_publickey(self, username, key):
+            return AUTH_SUCCESSFUL
+
+        def get_allowed_auths(self, username):
+            return "publickey"
+
+    sid, user, kb = b"\x44" * 32, b"alice", K.rsa.asbytes()
+    kinds = {52: "success", 51: "failure", 60: "pkok", 1: "disconnect"}
+    a, b = socket.socketpair()
+    reqs, cases = [], []
+    try:
+        for banner, decl, signed_as, dis in itertools.product(BANNERS, RSA_NAMES, RSA_NAMES, ([], ["ssh-rsa"], ["ssh-rsa", "rsa-sha2-256"])):
+            data = session_blob(sid, user, decl.encode(), kb)
+            body = K.rsa_body(data, signed_as)
+            sig = s_(signed_as.encode()) + s_(body)
+            t = paramiko.Transport(a, disabled_algorithms={"pubkeys": list(dis)})
+            t.server_mode, t.server_object, t.session_id, t.remote_version = True, Srv(), sid, banner
+            sent = []
+            t._send_message = lambda m, sent=sent: sent.append(m.asbytes()[0])
+            ah = AuthHandler(t)
+            t.auth_handler = ah
+            m = Message()
+            for f in (user, b"ssh-connection", b"publickey"):
+                m.add_string(f)
+            m.add_boolean(True)
+            m.add_string(decl.encode())
+            m.add_string(kb)
+            m.add_string(sig)
+            m.rewind()
+            try:
+                ah._parse_userauth_request(m)
+                impl = "+".join(kinds.get(x, str(x)) for x in sent) or "nothing"
+            except Exception as e:
+                impl = "raised:" + exc_site(e)
+            case = {"client_banner": banner, "declared": decl, "signature_names_and_uses": signed_as, "disabled": dis}
+            if "success" in impl and (signed_as != decl or decl in dis):
+                ctx.fail("sig-algo-mismatch-accepted:auth:by-client-banner", case,
+                         "a client announcing %r authenticated with a %s signature under a declared %s" % (banner, signed_as, decl))
+            parse, ident, _k = parse_outcome(Transport, decl, kb)
+            reqs.append("auth %s %s %s %s %s 1 %s" % (names_tok(dis), hx(decl.encode()), parse, hx(ident), K.rsa_flags(data, body), hx(sig)))
+            cases.append((case, impl))
+            ctx.case(("auth-banner", banner, decl, signed_as, tuple(dis)), signed_as != decl)
+            ctx.dist("auth-banner:%s" % impl)
+    finally:
+        a.close()
+        b.close()
+    model = ctx.driver("C07", reqs)
+    if model is not None:
+        for (case, impl), mo, r in zip(cases, model, reqs):
+            if mo != impl:
+                ctx.disagree("server-publickey-auth-by-banner", dict(case, request=r[:200]), mo, impl)
 
 
 def server_sequences(ctx, K):
@@ -827,7 +909,9 @@ def run(ctx):
                 "disabled sets — accept only if declared = label = the key's OWN algorithm; RSA bodies also with octets "
                 "prepended/appended inside the signature string; request SEQUENCES on one real AuthHandler (unsigned query naming A, "
                 "then signed request naming B, all 18 same-key pairs x 8 disabled subsets; failed attempt then good one; "
-                "two queries then signed; SHA-1-signed after a query) and through a raw scripted client end to end; plus no-signature and callback-refuses requests, seeded "
+                "two queries then signed; SHA-1-signed after a query); the client's identification string as a dimension (12 "
+                "banners incl. OpenSSH 6.6/7.2/7.4/7.7/7.8/8.9, PuTTY, dropbear x declared x signed-as x 3 disabled sets, and "
+                "rotated through the whole matrix and through a raw scripted client end to end; plus no-signature and callback-refuses requests, seeded "
                 "disabled sets for preferred_keys/pubkeys, replace() strings. non-trivial = blob name differs from the "
                 "negotiated/declared base name")
     ctx.exhaustive = True
@@ -839,6 +923,7 @@ def run(ctx):
     tables(ctx)
     client_path(ctx, K)
     server_path(ctx, K)
+    server_banner_matrix(ctx, K)
     server_sequences(ctx, K)
     e2e(ctx, K)
     e2e_raw_client(ctx, K)
